@@ -8,6 +8,11 @@ Three-way check per generated model (documented export subset):
       into the formula grammar, == Gallina [transform] (Export/Model.v) on the same
       formula (vm_compute, expr_eqb): this ties [classify_global]/[replace] to
       symtable + libcst as used by transformer.py.
+ (E)  the Gallina evaluator on the implementation's own dumped state (namespaces, formulas
+      and ItemSpaces of every static / derived / dynamic space object, Export/Run.v
+      [mk_model]): [call_cells] in the modelx world [Wo] AND in the exported world [Wt] ==
+      the value the implementation returned, for every query with an int / list value.
+      This ties the evaluator the theorems speak about to CPython + modelx.
 
 Known defects of the pinned tree (generator avoids their triggers; witnesses in corpus/C15):
   D29_kwarg_name   a keyword-argument NAME that is also read as a rewritten global in the same scope
@@ -29,9 +34,13 @@ CORPUS = os.path.join(fw.VERIF, "corpus", PROP)
 PY_BUILTINS = sorted(n for n in builtins.__dict__.keys() if n[:2] != '__' or n[-2:] != '__')
 
 TRUSTED = ["CPython name resolution (function globals then builtins, closures), libcst, symtable, pickle and pprint are "
-           "modelled / exercised, not verified; the formula evaluator of Export/Model.v is a model of CPython on the grammar"]
-ASSUMPTIONS = ["formulas are inside the grammar of Export/Model.v for the (T) comparison; formulas outside it are only covered by (P)",
-               "closures capture their environment by value in the Gallina evaluator (generated formulas assign every local once, before any capture)"]
+           "modelled, not verified; the formula evaluator of Export/Model.v is a model of CPython on the grammar, compared "
+           "with the implementation's values on every run (evaluator tie)"]
+ASSUMPTIONS = ["(T) and (E) cover formulas inside the grammar of Export/Model.v (all generated ones are); anything else is covered by (P) only",
+               "closures capture their environment by value in the Gallina evaluator (generated formulas assign every local once, before any "
+               "capture; a nested def sees itself)",
+               "module globals of the generated package (_mx_sys, _m_<space>) and the extra underscore attributes of space objects are not modelled",
+               "default values of cells parameters and pandas/IOSpec-backed references are covered by (P) only / not generated"]
 
 
 # --------------------------------------------------------------------------
@@ -234,6 +243,8 @@ def e_case(case, res):
         v = coq_canon(ma)
         if v is None or arity.get((sid, q["cell"])) != len(q["args"]):
             continue            # value outside the evaluator's vocabulary / default arguments used
+        if os.environ.get("C15_SELFTEST_E") == "1" and not qs and ma[0] == "i":
+            v = "(VInt (%d))" % (ma[1] + 1)      # self-test of the harness: a wrong expectation must be reported
         qs.append("(%d%%nat, %s, %s, %s)" % (sid, G._cs(q["cell"]), G._cl(["(VInt (%d))" % a for a in q["args"]]), v))
     if not qs:
         return None, 0
@@ -259,7 +270,7 @@ def load_corpus():
 
 def run(tier, seed, rng):
     out = Outcome()
-    n = int(os.environ.get("C15_N", "0")) or (170 if tier == "quick" else 2600)
+    n = int(os.environ.get("C15_N", "0")) or (140 if tier == "quick" else 2400)
     out.rule = ("random models of the documented export subset (static/nested/derived/parametrised spaces; literal, pickled, space- and "
                 "cells-valued references; def and lambda cells with nested lambdas, nested (recursive) defs, list comprehensions, generator "
                 "expressions, local assignments, keyword calls, local/parameter names shadowing globals and built-ins, references and cells "
@@ -336,6 +347,14 @@ def run(tier, seed, rng):
             dump_errs += 1
             out.notes.append("model %s could not be dumped: %s" % (c["id"], r["dump_err"]))
             continue
+        # the module-level names of the dumped tables must be the ones the exporter really gave to FormulaTransformer
+        obs_tops = {tuple(ob.get("top", [])) for ob in r.get("obs", [])}
+        if not r.get("export_err"):
+            for sp in r["dump"]["spaces"]:
+                if tuple(sp["top"]) not in obs_tops and (sp["top"] or sp["cells"]):
+                    out.tie_mismatches.append({"case": c["id"], "model": c, "detail": "module-level names handed to FormulaTransformer for %s differ from "
+                                               "references + cells of the space: %r not among %r" % (sp["repr"], sp["top"], sorted(obs_tops))})
+                    break
         t, k2 = e_case(c, r)
         if t:
             eterms.append(t); emeta.append((c, r)); nq += k2
